@@ -103,6 +103,13 @@ def _jobs(tier):
             add("dbg", s, "fallback-sf", "2x1", INF)
         add("dbg", "direct", "fallback-fs", "2x2", INF)
         add("dbg", "direct", "fallback-fs", "2x1", INF)
+        # allocator_adapter<stateful> as the wrapped allocator; a type-erased handle made from the storage object
+        # (odd threads work through any_allocator_reference(storage), even threads use the storage directly)
+        add("dbg", "direct", "handle", "3x1", INF, parts=3)
+        for s in storages:
+            for al in ("adapter", "handle"):
+                add("dbg", s, al, "2x2", INF)
+                add("dbg", s, al, "2x1", INF)
         # second Mutex type: an empty class locking a process-wide mutex
         add("dbg", "direct", "stateful", "3x1", INF, parts=2, mutex="empty")
         for s in storages:
@@ -142,6 +149,14 @@ def _jobs(tier):
             add("dbg", s, "stateful", "2x2", INF, mutex="empty")
             add("dbg", s, "stateful", "2x1", INF, mutex="empty")
         add("dbg", "direct", "tracked-sf", "3x2", 3, parts=4)
+        for cfg in ("dbg", "rel"):
+            for s in storages:
+                for al in ("adapter", "handle"):
+                    add(cfg, s, al, "3x1", INF, parts=3)
+                    add(cfg, s, al, "2x3", INF)
+                    add(cfg, s, al, "2x2", INF)
+                    add(cfg, s, al, "2x1", INF)
+        add("dbg", "direct", "handle", "3x2", 3, parts=4)
         for s in storages:
             for al in ("fallback-sf", "fallback-fs"):
                 add("dbg", s, al, "3x1", INF, parts=3)
@@ -328,7 +343,9 @@ def check(prop, tier, only):
                        "addresses distinct, mutex free at the end with #lock == #unlock and no unlock by a non-owner, no deadlock; "
                        "stateless allocator: no mutex object and no lock call at all (direct and reference storage). alloc 'tracked-sf' / "
                        "'tracked-es' = tracked_allocator<tracker with state, stateless allocator> / <empty tracker, stateful allocator>, "
-                       "'fallback-sf' / 'fallback-fs' = fallback_allocator<stateless default, stateful fallback> / the reverse: "
+                       "'fallback-sf' / 'fallback-fs' = fallback_allocator<stateless default, stateful fallback> / the reverse, 'adapter' = "
+                       "allocator_adapter<stateful allocator> as the wrapped allocator, 'handle' = threads with odd id work through an "
+                       "any_allocator_reference created from the shared storage object: "
                        "tracker callbacks AND inner allocator members are owner-checked, the part with state does the split "
                        "read-modify-write. '+empty-mutex-type' = Mutex is an empty class locking a process-wide mutex. alloc 'empty' = an "
                        "empty class declaring is_stateful = true_type (state global): judged exactly like 'stateful'. shape 'll' = "
